@@ -28,6 +28,12 @@ void __real_exit(int) __attribute__((noreturn));
 char *__real_getenv(const char *);
 time_t __real_time(time_t *);
 int __real_clock_gettime(clockid_t, struct timespec *);
+int __real_fileno(FILE *);
+ssize_t __real_read(int, void *, size_t);
+ssize_t __real_write(int, const void *, size_t);
+int __real_isatty(int);
+int __real_remove(const char *);
+int __real_unlink(const char *);
 pid_t __real_getpid(void);
 size_t __sanitizer_get_allocated_size(const volatile void *);
 }
@@ -54,6 +60,7 @@ const size_t FRONT = sizeof(Hdr) + 16;
 
 struct InStream { int file; size_t pos; };
 struct OutStream { int which; };  // 0: original stdout, 1: -o file
+struct FdEnt { FILE *f; int fd; InStream *in; OutStream *out; };
 
 struct State {
 	const Plan *plan = nullptr;
@@ -79,6 +86,10 @@ struct State {
 	std::string errbuf;
 	FILE *orig_stdout = nullptr, *orig_stderr = nullptr, *orig_stdin = nullptr;
 	std::vector<InStream *> ins;
+	std::vector<FdEnt> fds;                     // simulated descriptors behind the cookie streams
+	std::vector<void (*)(void)> atexit_fns;
+	bool exiting = false;
+	bool out_removed = false;
 	char obuf[65536];
 };
 State S;
@@ -105,6 +116,7 @@ NOINSTR void fired(uint32_t bit) {
 
 NOINSTR void send_result_and_exit() {
 	// final bookkeeping that is safe in any context
+	if (S.out_removed) S.sink[1] = "<output file removed>";
 	const std::string &out = S.sink[S.designated];
 	S.res.sink_len = out.size();
 	S.res.sink_hash = hash_bytes(out.data(), out.size());
@@ -265,7 +277,8 @@ NOINSTR ssize_t in_read(void *c, char *buf, size_t n) {
 	ev(0x52, m);
 	return (ssize_t)m;
 }
-NOINSTR int in_close(void *c) { (void)c; ev(0x63, 0); return 0; }
+NOINSTR void forget_stream(void *cookie);
+NOINSTR int in_close(void *c) { forget_stream(c); ev(0x63, 0); return 0; }
 
 // regular files are seekable; a pipe on stdin is not (no seek callback)
 NOINSTR int in_seek(void *c, off64_t *pos, int whence) {
@@ -308,9 +321,17 @@ NOINSTR ssize_t err_write(void *c, const char *buf, size_t n) {
 	return (ssize_t)n;
 }
 
+// a closed stream's FILE may be handed out again by the next fopencookie: drop its descriptor entry
+NOINSTR void forget_stream(void *cookie) {
+	for (size_t i = 0; i < S.fds.size(); i++)
+		if ((void *)S.fds[i].in == cookie) { S.fds.erase(S.fds.begin() + (long)i); return; }
+}
+
 NOINSTR FILE *make_out(int which) {
 	cookie_io_functions_t io = {nullptr, out_write, nullptr, nullptr};
-	FILE *f = fopencookie(new OutStream{which}, "w", io);
+	OutStream *os = new OutStream{which};
+	FILE *f = fopencookie(os, "w", io);
+	S.fds.push_back(FdEnt{f, which == 0 ? 1 : 200, nullptr, os});
 	switch (S.plan->outbuf) {
 	case 1: setvbuf(f, nullptr, _IONBF, 0); break;
 	case 2: setvbuf(f, S.obuf, _IOLBF, 4096); break;
@@ -327,7 +348,9 @@ NOINSTR FILE *make_in(int file, bool seekable) {
 	cookie_io_functions_t io = {in_read, nullptr, seekable ? in_seek : nullptr, in_close};
 	InStream *in = new InStream{file, 0};
 	S.ins.push_back(in);
-	return fopencookie(in, "r", io);
+	FILE *f = fopencookie(in, "r", io);
+	S.fds.push_back(FdEnt{f, S.ins.size() == 1 && S.plan->via_stdin ? 0 : 100 + (int)S.ins.size(), in, nullptr});
+	return f;
 }
 
 // ---------------------------------------------------------------- signals
@@ -518,9 +541,25 @@ NOINSTR FILE *__wrap_freopen(const char *path, const char *mode, FILE *stream) {
 	return f;
 }
 
+NOINSTR int __wrap_atexit(void (*fn)(void)) {
+	if (!S.in_sut) return 0;
+	S.atexit_fns.push_back(fn);
+	ev(0x61, S.atexit_fns.size());
+	return 0;
+}
+
 NOINSTR void __wrap_exit(int status) {
 	if (!S.in_sut) __real_exit(status);
-	// exit() flushes every open output stream
+	if (!S.exiting) {
+		S.exiting = true;
+		// exit() first runs the handlers registered with atexit, last registered first ...
+		while (!S.atexit_fns.empty()) {
+			void (*fn)(void) = S.atexit_fns.back();
+			S.atexit_fns.pop_back();
+			fn();
+		}
+	}
+	// ... then flushes every open output stream
 	fflush(stdout);
 	ev(0x78, (uint64_t)status);
 	finish(K_EXIT, status & 0xff);
@@ -538,6 +577,51 @@ NOINSTR void __wrap___assert_fail(const char *expr, const char *file, unsigned l
 	snprintf(S.res.msg, sizeof S.res.msg, "assertion `%s' failed at %s:%u in %s", expr, b ? b + 1 : file, line, func);
 	finish(K_ASSERT, 0);
 }
+
+// descriptor-level access to the simulated streams (not used by cproc-qbe today;
+// a change that bypasses stdio still stays inside the simulator)
+NOINSTR static FdEnt *fd_by_file(FILE *f) { for (size_t i = S.fds.size(); i-- > 0;) if (S.fds[i].f == f) return &S.fds[i]; return nullptr; }
+NOINSTR static FdEnt *fd_by_fd(int fd) { for (auto &e : S.fds) if (e.fd == fd) return &e; return nullptr; }
+
+NOINSTR int __wrap_fileno(FILE *f) {
+	if (!S.in_sut) return __real_fileno(f);
+	if (FdEnt *e = fd_by_file(f)) return e->fd;
+	if (f == stderr) return 2;
+	errno = EBADF;
+	return -1;
+}
+NOINSTR ssize_t __wrap_read(int fd, void *buf, size_t n) {
+	if (!S.in_sut) return __real_read(fd, buf, n);
+	FdEnt *e = fd_by_fd(fd);
+	if (!e || !e->in) { errno = EBADF; return -1; }
+	return in_read(e->in, (char *)buf, n);
+}
+NOINSTR ssize_t __wrap_write(int fd, const void *buf, size_t n) {
+	if (!S.in_sut) return __real_write(fd, buf, n);
+	if (fd == 2) return err_write(nullptr, (const char *)buf, n);
+	FdEnt *e = fd_by_fd(fd);
+	if (!e || !e->out) { errno = EBADF; return -1; }
+	ssize_t r = out_write(e->out, (const char *)buf, n);
+	return r == 0 && n ? -1 : r;
+}
+NOINSTR int __wrap_isatty(int fd) {
+	if (!S.in_sut) return __real_isatty(fd);
+	// the environment decides whether a descriptor is a terminal: seeded, so dependence on it shows
+	fired(F_TRIPWIRE);
+	(void)fd;
+	return (int)(S.triprng.next() & 1);
+}
+NOINSTR static int sim_remove(const char *path) {
+	ev(0x75, hash_bytes(path, strlen(path)));
+	if (strcmp(path, "/sim/out") == 0 && S.designated == 1 && !S.out_removed) {
+		S.out_removed = true;
+		return 0;
+	}
+	errno = ENOENT;
+	return -1;
+}
+NOINSTR int __wrap_remove(const char *path) { return S.in_sut ? sim_remove(path) : __real_remove(path); }
+NOINSTR int __wrap_unlink(const char *path) { return S.in_sut ? sim_remove(path) : __real_unlink(path); }
 
 // tripwires: cproc-qbe does not call these today.  If a change introduces a
 // call, it gets seeded, varying values, so that any dependence of the output
@@ -599,11 +683,27 @@ extern "C" __attribute__((used)) NOINSTR const char *__ubsan_default_options() {
 #endif
 
 namespace {
+// What an uninitialised automatic variable contains is whatever earlier calls left on the
+// stack - in a forked child, the worker's history.  Overwrite the region the compiler is
+// about to use with the plan's fill pattern, so stack garbage is part of the plan too.
+NOINSTR __attribute__((noinline)) void scrub_stack(void) {
+	const size_t N = 768 * 1024;
+	volatile unsigned char *p = (volatile unsigned char *)__builtin_alloca(N);
+	uint64_t st = S.plan->alloc_seed ^ 0x5ca1ab1eULL;
+	switch (S.plan->fill) {
+	case 0: for (size_t i = 0; i < N; i++) p[i] = 0; break;
+	case 1: for (size_t i = 0; i < N; i++) p[i] = 0xff; break;
+	case 2: for (size_t i = 0; i < N; i++) p[i] = 0xa5; break;
+	default: for (size_t i = 0; i < N; i++) { if ((i & 7) == 0) st = splitmix64(st); p[i] = (unsigned char)(st >> ((i & 7) * 8)); }
+	}
+}
+
 // noinline + alloca: shift every stack address of the run by a seeded amount
 NOINSTR __attribute__((noinline)) int call_main(int argc, char **argv, int shift) {
 	volatile char *pad = (volatile char *)__builtin_alloca((size_t)shift + 16);
 	pad[0] = 1;
 	pad[shift] = 2;
+	scrub_stack();
 	return cproc_qbe_main(argc, argv);
 }
 }  // namespace
